@@ -4,7 +4,7 @@
 EXTENDS Values, Json
 CONSTANTS MaxStr, Deep
 
-StrAlphabet == {"a", "\"", "\\", "\n", "\t", "\r", "$", "{", "'", " ", "U"}
+StrAlphabet == {"a", "\"", "\\", "\n", "\t", "\r", "$", "{", "}", "'", " ", "U"}
 RECURSIVE Strs(_)
 Strs(n) == IF n = 0 THEN {<<>>} ELSE LET S == Strs(n - 1) IN S \cup {Append(s, c) : s \in {t \in S : Len(t) = n - 1}, c \in StrAlphabet}
 NoInterp(s) == \A i \in 1..Len(s) - 1 : ~(s[i] = "$" /\ s[i + 1] = "{")
@@ -28,7 +28,11 @@ Nested == IF Deep THEN {L(<<x, I("1")>>) : x \in {L(<<>>), L(<<I("-3")>>), L(<<I
                       \cup {D(<<"k">>, <<x>>) : x \in Lists1 \cup Dicts1}
                       \cup {D(<<"k", "j">>, <<x, y>>) : x \in {L(<<I("-3"), I("2")>>), D(<<"z">>, <<I("1")>>)}, y \in {L(<<F("-2.25")>>), D(<<>>, <<>>)}}
           ELSE {L(<<L(<<I("-3")>>), I("1")>>), D(<<"k">>, <<L(<<I("-3"), F("1.5")>>)>>), D(<<"k">>, <<D(<<"z">>, <<I("-3")>>)>>)}
-AllValues == Scalars \cup Lists1 \cup Dicts1 \cup Nested
+\* lists that hold an attribute set (outside C13's data domain; C15 rebuilds documents built from them: an element that
+\* needs several lines makes the renderer decide the list's layout at rebuild time)
+DictLists == {L(<<a, D(<<"k", "j">>, <<I("7"), I("-3")>>)>>) : a \in {I("7"), [t |-> "str", c |-> <<"a">>]}}
+             \cup {L(<<D(<<"k">>, <<L(<<I("1"), I("2")>>)>>)>>), L(<<L(<<I("1"), D(<<"k", "j">>, <<I("1"), I("2")>>)>>), I("3")>>)}
+AllValues == Scalars \cup Lists1 \cup Dicts1 \cup Nested \cup DictLists
 
 Routes == {"from_dict", "ctor_dict", "binding", "nixlist", "item_assign", "scope_assign", "top"}
 VARIABLES v, route
